@@ -223,8 +223,10 @@ KERNELS = [
     [((1,), 0), ((0,), 1), ((0, 2), 2), ((2,), 3), ((3, 4), 4)],
     [((0,), 0), ((0,), 1), ((1,), 2), ((2,), 0), ((4,), 4), ((4, 0), 5)],
     [((0,), 0), ((1,), 1), ((2,), 2), ((3,), 3), ((0, 1), 4)],       # four self loops, all latencies equal (ties)
+    [((2,), 0), ((0,), 1), ((1,), 2), ((3,), 3)],                    # a 3-ring with latencies 0.1 / 0.2 / 0.3 (not exact in binary: the sum depends on the order of its terms)
 ]
 EQUAL_LAT = {3}
+FRACTION_LAT = {4: [0.1, 0.2, 0.3, 0.7]}
 PERMS4 = []
 
 
@@ -241,7 +243,7 @@ def _build(kidx, layout=0):
     first, gap = LAYOUTS[layout]
     for i, (rs, w) in enumerate(KERNELS[kidx]):
         ln = first + i + (10 if gap is not None and i > gap else 0)
-        kernel.append(iform(ln, src=[class_reg("x86", c) for c in rs], dst=[class_reg("x86", w)], lat=(2 if kidx in EQUAL_LAT else 1 << i)))
+        kernel.append(iform(ln, src=[class_reg("x86", c) for c in rs], dst=[class_reg("x86", w)], lat=(FRACTION_LAT[kidx][i] if kidx in FRACTION_LAT else (2 if kidx in EQUAL_LAT else 1 << i))))
     return kernel
 
 
@@ -271,12 +273,12 @@ CORES = [1, 2, 3, 4, 7, 16]
 
 def merge_order(kidx: int, ci: int, perm: int, layout: int) -> bool:
     """
-    pre: 0 <= kidx < 4 and 0 <= ci < 6 and 0 <= perm < 24 and 0 <= layout < 4
+    pre: 0 <= kidx < 5 and 0 <= ci < 6 and 0 <= perm < 24 and 0 <= layout < 4
     post: _
     """
     if skip(locals()):
         return True
-    k, c = pick(kidx, 4), CORES[pick(ci, 6)]
+    k, c = pick(kidx, 5), CORES[pick(ci, 6)]
     pi = pick(perm, 24)
     n = min(c, 4)
     perms = _perms(n)
@@ -338,7 +340,7 @@ CELLS = {
                     "bound": "E2 (z3 QF_BVFP): int((k-1)/c) == (k-1)//c in IEEE double arithmetic for k <= 256, c <= 64", "budget": {"quick": 170}},
     "float_lemma_full": {"kind": "smt", "fn": lambda b: _float_lemma(b, 4096, 256), "replay": float_lemma_replay, "tiers": ("thorough",),
                          "bound": "same for k <= 4096, c <= 256", "budget": {"thorough": 1200}},
-    "merge_order": {"fn": merge_order, "bound": "4 kernels with overlapping cycles and with several equal-latency cycles (4-6 instructions, threshold lowered) x cpu_count in {1,2,3,4,7,16} x every publication order of the first 4 workers; line numbers starting at 1, at 998 (straddling 1000), and with a gap of 10 (as --lines with a hole produces) at 1 and at 2000", "budget": {"quick": 170, "thorough": 600}},
+    "merge_order": {"fn": merge_order, "bound": "5 kernels with overlapping cycles, with several equal-latency cycles and with latencies that are not exact in binary (4-6 instructions, threshold lowered) x cpu_count in {1,2,3,4,7,16} x every publication order of the first 4 workers; line numbers starting at 1, at 998 (straddling 1000), and with a gap of 10 (as --lines with a hole produces) at 1 and at 2000", "budget": {"quick": 170, "thorough": 600}},
     "real_processes": {"fn": real_processes, "bound": "concrete witness with real multiprocessing: 52-line kernels x 6 rotations vs the sequential search", "budget": {"quick": 170, "thorough": 600}},
 }
 
